@@ -31,6 +31,9 @@ type seqCase struct {
 	Call      spec.Call `json:"call"`
 	Datagrams [][]byte  `json:"datagrams"`
 	Via       []bool    `json:"via,omitempty"` // socket layer, broadcast path: datagram sent from a third-party socket
+	// Warm: a well-formed reply of the same operation from ANOTHER controller, received by another client just before this
+	// call: 'the content of any other datagram never appears in a returned result' includes datagrams of earlier calls
+	Warm []byte `json:"warm,omitempty"`
 }
 
 var classNames = []string{"valid", "short", "long", "other-serial", "serial-0", "wrong-code", "wrong-id", "id-0x19", "malformed", "malformed-strict"}
@@ -188,6 +191,16 @@ func accepted(c spec.Call) spec.Call {
 }
 
 func runHook(c seqCase) *rp.Fail {
+	if len(c.Warm) == 64 {
+		other := c
+		other.Call.Serial = spec.LE32(c.Warm[4:])
+		u0, d0 := hook.Mem(cfgFor(other, [4]byte{127, 0, 0, 9}, ctrlPort, 0))
+		for i := 0; i < 2; i++ {
+			d0.Reset(c.Warm)
+			api.Invoke(u0, api.Case{Call: accepted(other.Call), V: api.Variant{WeekPresent: [7]bool{true, true, true, true, true, true, true}}})
+		}
+		ev.Class("hook/after-a-reply-from-another-controller", 1)
+	}
 	u, d := hook.Mem(cfgFor(c, [4]byte{127, 0, 0, 2}, ctrlPort, 0))
 	d.Reset(c.Datagrams...)
 	res := api.Invoke(u, api.Case{Call: accepted(c.Call), V: api.Variant{WeekPresent: [7]bool{true, true, true, true, true, true, true}}})
@@ -447,6 +460,17 @@ func genSeq(layer string, maxLen int) func(t *rapid.T) seqCase {
 				via = rapid.IntRange(0, 2).Draw(t, "via") == 0
 			}
 			c.Via = append(c.Via, via)
+		}
+		if layer == "hook" && rapid.Bool().Draw(t, "warm") {
+			other := c.Call
+			other.Serial ^= 0x00100000
+			if other.Serial == 0 {
+				other.Serial = 77
+			}
+			c.Warm = mkDatagram(t, "valid", other)
+			if classify(c.Warm, other) != "valid" {
+				c.Warm = nil
+			}
 		}
 		return c
 	}
